@@ -441,6 +441,32 @@ func (c *Ctx) originLeaves(v ssa.Value, scope map[*ssa.Function]bool) []ssa.Valu
 					return
 				}
 			}
+			// a field of a local struct that travels by pointer (a "per-block values" struct handed to a helper):
+			// continue at what was stored into that field of the object
+			if fa, ok := x.X.(*ssa.FieldAddr); ok && x.Op == token.MUL {
+				n := 0
+				for _, obj := range c.originLeaves(fa.X, scope) {
+					al, ok := obj.(*ssa.Alloc)
+					if !ok || al.Referrers() == nil {
+						continue
+					}
+					for _, rf := range *al.Referrers() {
+						f2, ok := rf.(*ssa.FieldAddr)
+						if !ok || f2.Field != fa.Field || f2.Referrers() == nil {
+							continue
+						}
+						for _, r2 := range *f2.Referrers() {
+							if st, ok := r2.(*ssa.Store); ok && st.Addr == ssa.Value(f2) {
+								walk(st.Val, depth+1)
+								n++
+							}
+						}
+					}
+				}
+				if n > 0 {
+					return
+				}
+			}
 			if fv, ok := x.X.(*ssa.FreeVar); ok && x.Op == token.MUL {
 				fn := fv.Parent()
 				n := 0
